@@ -286,7 +286,7 @@ impl Vm {
     }
 
     pub fn new_root_obj_upvalue(&mut self, value: &mut Value) -> Root<RefCell<ObjUpvalue>> {
-        Root::new(RefCell::new(ObjUpvalue::new(value)))
+        Root::new(RefCell::new(ObjUpvalue::new(value, None)))
     }
 
     pub fn new_root_obj_function(
@@ -320,7 +320,7 @@ impl Vm {
         module: Gc<RefCell<ObjModule>>,
     ) -> Root<ObjClosure> {
         let upvalue_roots: Vec<Root<RefCell<ObjUpvalue>>> = (0..function.upvalue_count)
-            .map(|_| Root::new(RefCell::new(ObjUpvalue::new(ptr::null_mut()))))
+            .map(|_| Root::new(RefCell::new(ObjUpvalue::new(ptr::null_mut(), None))))
             .collect();
         let upvalues = upvalue_roots.iter().map(|u| u.as_gc()).collect();
         Root::new(ObjClosure::new(function, upvalues, module))
@@ -1738,7 +1738,8 @@ impl Vm {
             }
         }
 
-        let created_upvalue = Root::new(RefCell::new(ObjUpvalue::new(loc_addr as *mut _)));
+        let owner = self.fiber.as_ref().map(|fiber| fiber.as_gc());
+        let created_upvalue = Root::new(RefCell::new(ObjUpvalue::new(loc_addr as *mut _, owner)));
         if let Some(uv) = prev_upvalue {
             uv.borrow_mut().next = Some(created_upvalue.as_gc());
         } else {
